@@ -1,5 +1,6 @@
 #include "refrfc.h"
 #include <algorithm>
+#include <cmath>
 
 bool ptr_split(const std::string &ptr, std::vector<std::string> &tokens) {
     tokens.clear();
@@ -62,10 +63,17 @@ void ptr_enumerate(MVal *doc, std::vector<std::pair<std::string, MVal *>> &out, 
         for (MVal *k : doc->kids) ptr_enumerate(k, out, prefix + "/" + ptr_escape(k->key));
     }
 }
+bool rfc_number_tolerant = false;
+static bool number_equal(double a, double b) {
+    if (a == b) return true;
+    if (!rfc_number_tolerant) return false;
+    double m = std::fabs(a) > std::fabs(b) ? std::fabs(a) : std::fabs(b);
+    return std::fabs(a - b) <= m * 2.220446049250313e-16;
+}
 bool rfc_equal(const MVal *a, const MVal *b) {
     if (a->type != b->type) return false;
     switch (a->type) {
-        case T_NUMBER: return a->num == b->num;
+        case T_NUMBER: return number_equal(a->num, b->num);
         case T_STRING: return a->str == b->str;
         case T_ARRAY:
             if (a->kids.size() != b->kids.size()) return false;
